@@ -98,7 +98,8 @@ merge_state = function(
     'forall(StatePath, Int, lambda p, i: implies(0 <= i and i < _k and p in _at(i) and forall(Int, lambda j: implies(i < j and j < _k, not (p in _at(j)))), new_state[p] == _at(i)[p]))',
   ]},
   bindings=dict(B, cls=Handler('cls', lambda ex, a, kw: ex.coerce(a[0], StateMap), 'State(mapping)'), isinstance=Handler('isinstance', lambda ex, a, kw: True, 'isinstance(state, cls)')),
-  props=('C16',), native=NH('flax.nnx.statelib', 'merge_state', call=lambda fn, c: fn(c['state'], *c['states'])))
+  props=('C16',), native=NH('flax.nnx.statelib', 'merge_state', call=lambda fn, c: fn(c['state'], *c['states']),
+                            extra=[dict(state={('a',): 5}, states=({('a',): 1},), cls=None), dict(state={('a',): 1, ('b',): 3}, states=({('b',): 1}, {('a',): 5, ('b',): 5}), cls=None)]))
 merge_state.vararg = 'states'
 merge_state.locals = {'new_state': StateMap}
 States.concretise = lambda sp: tuple(_conc_state(x) for x in sp)
